@@ -88,6 +88,7 @@ class SimQueue(_Named):
         self._mkname('Queue')
         self._q = deque()
         self.maxsize = maxsize
+        self._unfinished = 0          # as queue.Queue: put() counts up, task_done() down, join() waits for zero
 
     def _full(self):
         return self.maxsize > 0 and len(self._q) >= self.maxsize
@@ -99,12 +100,14 @@ class SimQueue(_Named):
             if self._full():
                 raise _q.Full
             self._q.append(item)
+            self._unfinished += 1
             return
         timed = _sync('queue.put', self.simname, pred=lambda: not self._full(),
                       timeout_ok=timeout is not None, yielding=timeout is not None)
         if timed and self._full():
             raise _q.Full
         self._q.append(item)
+        self._unfinished += 1
 
     def put_nowait(self, item):
         return self.put(item, block=False)
@@ -138,10 +141,13 @@ class SimQueue(_Named):
         return len(self._q)
 
     def task_done(self):
-        pass
+        _sync('queue.task_done', self.simname)
+        if self._unfinished <= 0:
+            raise ValueError('task_done() called too many times')
+        self._unfinished -= 1
 
     def join(self):
-        pass
+        _sync('queue.join', self.simname, pred=lambda: self._unfinished == 0)
 
 
 class SimBarrier(_Named):
